@@ -101,9 +101,11 @@ type scenario struct {
 	ShutAfter int    `json:"shut_after"`
 	ShutExtra int    `json:"shut_extra"`
 	// amplifier for the shutdown drain: GOMAXPROCS and busy goroutines during Shutdown
-	Procs    int  `json:"procs,omitempty"`
-	Spinners int  `json:"spinners,omitempty"`
-	GCStress bool `json:"gc_stress,omitempty"`
+	Procs       int  `json:"procs,omitempty"`
+	Spinners    int  `json:"spinners,omitempty"`
+	GCStress    bool `json:"gc_stress,omitempty"`
+	ShutCallers int  `json:"shut_callers,omitempty"` // goroutines calling log.Shutdown concurrently (0 = 1)
+	IdleRounds  int  `json:"idle_rounds,omitempty"`  // family idle: held-final-Write rounds after each phase
 	// workload mix switches
 	Tracers bool `json:"tracers"`
 	Dense   bool `json:"dense"` // many runs / shared / colliding texts (merging)
@@ -225,6 +227,12 @@ func genScenario(cfg vlib.Cfg, n int, build string, family string) scenario {
 		s.Sched = r.Bool()
 		s.Trig = trigSpec{WithholdUntil: vlib.Pick(r, -1, 0), EveryUs: vlib.Pick(r, 0, 100)}
 		nph = r.Range(1, 3)
+	case "idle":
+		// free-running writer, small phases, idle rounds at every barrier
+		s.Producers = vlib.Pick(r, 1, 2, 4, 8)
+		nph = r.Range(1, 3)
+		total = r.Range(50, 1500)
+		s.IdleRounds = r.Range(1, 3)
 	case "twin":
 		// one goroutine (or few), everything queued before the writer is triggered:
 		// what was logged back to back is back to back in the writer's batch
@@ -316,7 +324,7 @@ func genScenario(cfg vlib.Cfg, n int, build string, family string) scenario {
 	tot := s.totalOps()
 	s.Shutdown = "end"
 	switch s.Family {
-	case "squeeze", "twin":
+	case "squeeze", "twin", "idle":
 		s.Shutdown = "end"
 	case "small":
 		if r.Chance(1, 2) {
@@ -334,6 +342,9 @@ func genScenario(cfg vlib.Cfg, n int, build string, family string) scenario {
 			}
 			s.ShutExtra = r.Intn(300)
 		}
+	}
+	if r.Chance(2, 5) {
+		s.ShutCallers = r.Range(2, 3)
 	}
 	return s
 }
